@@ -79,22 +79,24 @@ def _k3_job(job):
     ctx = _CTX; part = Part()
     P = ctx.program(CR)
     key = P.find_fn('ironplcc', 'handle_notification')
-    W = World(P, None)
+    W = World(P, None); st_v = {}
     M = Machine(P, stubs=W.stubs())
     def entry(M):
         W.parse_ok.clear(); W.an_ok.clear(); W.env.sent.clear()
-        def play(history):
+        def play(history, versions=None):
             server = _new_server(M, P, {}); outs = []
             for n, (kind, ui, texts) in enumerate(history):
                 W.env.json_ok.clear(); W.env.sent.clear()
-                name, params = _notif(P, kind, URIS[ui], 10 + n, texts)
+                name, params = _notif(P, kind, URIS[ui], versions[n] if versions else 10 + n, texts)
                 W.env.params = {name: params}
                 W.env.json_ok = {name: True, 'Exit': True}
                 notif = LSP.mkstruct(P, 'Notification', method=Str('ASSOC:%s:METHOD' % name), params=Opaque('json'))
                 M.call_fn(key, [server, Ref(Cell(notif))])
                 outs.append(list(W.env.sent))
             return server, outs
-        server, outs = play(hist)
+        # the version numbers are the client's: any 32-bit integers, in any order (a client restarts them when it re-opens a document)
+        vers = [M.fresh_bv('version%d' % n, 32) for n in range(len(hist))]; st_v['vers'] = vers
+        server, outs = play(hist, vers)
         # reference run on the same path (same uninterpreted parse/analysis outcomes): a fresh server that is only ever told the current contents
         cur = {}
         for k, u, t in hist:
@@ -119,15 +121,28 @@ def _k3_job(job):
         cur = {}
         for k, u, t in hist:
             if t: cur[URIS[u]] = t[-1]
-        kind, ui, texts = hist[-1]; uri = URIS[ui]; version = 10 + len(hist) - 1
+        kind, ui, texts = hist[-1]; uri = URIS[ui]; version = st_v['vers'][-1]
+        sv = z3.Solver(); sv.add(*pr.pc); sv.check(); mv = sv.model()
+        vvals = [mv.eval(v, True).as_signed_long() for v in st_v['vers']]
+        hdesc = [(k, u, t, vv) for (k, u, t), vv in zip(hdesc, vvals)]; wit = {'history': hdesc}
         pubs = [M.deref(x) for x in outs[-1]]
         pubs = [x.f[0] for x in pubs if isinstance(x, EnumV) and x.name == 'Message' and x.disc == 2]
         if len(pubs) != 1:
             part.add('C11/K3/publish-count', '%d publishDiagnostics notifications for one %s' % (len(pubs), kind), wit, ('lsp_history', (hdesc,))); return
         pp = pubs[0].f[1]
         got_uri = M.deref(pp.f[0].f[0]).conc(); got_ver = pp.f[2]
-        if got_uri != uri or not (isinstance(got_ver, EnumV) and got_ver.disc == 1 and simp(got_ver.f[0]) == version):
-            part.add('C11/K3/publish-uri-or-version', 'publishDiagnostics carries uri %s / version %r instead of %s / %d' % (got_uri, got_ver, uri, version), wit, ('lsp_history', (hdesc,)))
+        ver_ok = isinstance(got_ver, EnumV) and got_ver.disc == 1
+        if ver_ok:
+            d_ = simp(tobv(got_ver.f[0], 32) != version)
+            if d_ is True: ver_ok = False
+            elif d_ is not False:
+                sv.push(); sv.add(d_)
+                if sv.check() == z3.sat:
+                    ver_ok = False; mv = sv.model(); vvals = [mv.eval(v, True).as_signed_long() for v in st_v['vers']]
+                    hdesc = [(h[0], h[1], h[2], vv) for h, vv in zip(hdesc, vvals)]; wit = {'history': hdesc}
+                sv.pop()
+        if got_uri != uri or not ver_ok:
+            part.add('C11/K3/publish-uri-or-version', 'publishDiagnostics carries uri %s / version %r instead of %s / the version of the notification (history with versions %s)' % (got_uri, got_ver, uri, hdesc), wit, ('lsp_history', (hdesc,)))
         # the project must hold exactly the current contents
         proj = _wrapped(M, P, server)
         held = {('file://' + M.deref(e.f[0].f[0]).conc()): M.deref(e.f[1].f[1]).conc() for e in proj.f[0].items}
@@ -175,18 +190,19 @@ def _replay_history(hdesc):
             s = lspclient.LspSession(ctx.ironplcc_path()); last = None
             try:
                 s.initialize()
-                for n, (k, uri, ts) in enumerate(history):
+                for n, h in enumerate(history):
+                    k, uri, ts = h[0], h[1], h[2]; ver = h[3] if len(h) > 3 else 10 + n
                     u = uri.replace('file:///', 'file:///tmp/verif_c11_')
-                    if k == 'open': s.did_open(u, text(uri, ts[0]), 10 + n)
-                    else: s.did_change(u, [text(uri, t) for t in ts], 10 + n)
-                    last = s.diagnostics_for(u, version=10 + n, timeout=5)
+                    if k == 'open': s.did_open(u, text(uri, ts[0]), ver)
+                    else: s.did_change(u, [text(uri, t) for t in ts], ver)
+                    last = s.diagnostics_for(u, version=ver, timeout=5)
             finally:
                 s.close()
             return last
         got = run(hdesc)
         cur = {}
-        for k, u, t in hdesc:
-            if t: cur[u] = t[-1]
+        for h in hdesc:
+            if h[2]: cur[h[1]] = h[2][-1]
         last_uri = hdesc[-1][1]
         fresh_hist = [('open', u, [t]) for u, t in cur.items() if u != last_uri] + ([('open', last_uri, [cur[last_uri]])] if last_uri in cur else [])
         want = run(fresh_hist) if fresh_hist else None
